@@ -22,9 +22,9 @@
 
    Outside the model: submodules, external modules (ExternalModule objects), operator / assignment
    generic-specs in ONLY lists, how the accessibility of own declarations is computed (C04: d_perm
-   is an input), and the sharing of one dictionary object between a module and the procedures it
-   contains (C07): of a nested scope's dictionaries only a lower bound is modelled, and a module
-   with nested scopes has its all_types / all_vars / all_absinterfaces compared as lower bounds.
+   is an input), and the declarations local to nested scopes (C07).  Since /repo 3f6f480 a scope's
+   dictionaries are copies of its host's: the module's dictionaries are compared exactly, and of a
+   nested scope's dictionary the use-associated part is compared exactly (Corr/C06.v).
    A program unit is projected as a module that nobody uses (only its all_* dictionaries are
    compared). *)
 From Ford Require Import Base.Str.
@@ -67,14 +67,7 @@ Record nscope := { s_path : list str; s_kinds : list nkind; s_decls : list decl;
 
 Record module := { m_name : str; m_default : perm; m_decls : list decl;
                    m_access : list (str * bool); m_uses : list use_stmt; m_nested : list nscope }.
-(* is the scope reached by get_deps (see [deps] below); is it the body of an interface *)
-Definition counted_kind (k : nkind) : bool := match k with NRoutine | NIfBody => true | _ => false end.
-Definition counted (S : nscope) : bool := forallb counted_kind (s_kinds S).
-(* find_used_modules visits `routines` and the procedures of `interfaces` (generic or not), never
-   `absinterfaces`: the USE statements of an abstract interface body keep the module name as a
-   string and are skipped by correlate *)
-Definition uses_resolved (S : nscope) : bool :=
-  forallb (fun k => match k with NAbsBody => false | _ => true end) (s_kinds S).
+(* is the scope the body of an interface *)
 Definition is_body (S : nscope) : bool :=
   match last (s_kinds S) NRoutine with NRoutine => false | _ => true end.
 
@@ -175,10 +168,8 @@ Definition as_module (M : module) (S : nscope) : module :=
   {| m_name := m_name M; m_default := Public; m_decls := s_decls S; m_access := []; m_uses := s_uses S;
      m_nested := [] |}.
 Definition nested_imports_model (c : cls) (g : graph) (order : list str) (M : module) (S : nscope) : table :=
-  if uses_resolved S
-  then snd (fold_left (use_step g (as_module M S) (st_tabs (correlate_all c g (before (m_name M) order))))
-                      (s_uses S) ([], []))
-  else [].
+  snd (fold_left (use_step g (as_module M S) (st_tabs (correlate_all c g (before (m_name M) order))))
+                 (s_uses S) ([], [])).
 (* the hosts of S inside M (S included): the nested scopes whose path is a prefix of S's *)
 Fixpoint prefix_b (a b : list str) : bool :=
   match a, b with
@@ -204,11 +195,11 @@ Definition nested_lower_model (c : cls) (g : graph) (order : list str) (M : modu
 
 (* toposort_flatten over {module: modules it uses}: self-dependencies are discarded, every round
    takes the modules all of whose dependencies are done; None = CircularDependencyError *)
-(* get_deps: the USE statements of the module, and recursively those of `routines` and of the
-   `procedure` of the entries of `interfaces` that have one (non-generic interface bodies).  The
-   bodies of abstract interfaces and of generic interface blocks are not visited. *)
+(* get_deps: the USE statements of the module and, recursively, those of its routines and of the
+   procedure bodies of its interface blocks of every kind (plain, abstract, generic); likewise
+   find_used_modules matches the USE statements of all of them with module objects *)
 Definition nested_targets (M : module) : list str :=
-  flat_map (fun S => if counted S then map u_target (s_uses S) else []) (m_nested M).
+  flat_map (fun S => map u_target (s_uses S)) (m_nested M).
 Definition resolved_targets (g : graph) (M : module) : list str :=
   filter (fun t => str_in t (names g)) (map u_target (m_uses M) ++ nested_targets M).
 Definition deps (g : graph) (M : module) : list str :=
@@ -373,11 +364,6 @@ Definition region_only_empty_m (M : module) : bool :=
 (* 4: an ONLY list naming the same entity twice ( only: foo, bar => foo ) *)
 Definition region_only_dup_m (M : module) : bool :=
   existsb (fun u => match u_only u with Some items => negb (nodup_b (map snd items)) | None => false end) (m_uses M).
-(* 5: a USE statement in the body of an abstract interface (never matched to a module object) or
-      of a generic interface block (get_deps does not see it, so the module may be correlated
-      before the used one has merged its imports) *)
-Definition region_uncounted_m (M : module) : bool :=
-  existsb (fun S => negb (counted S) && negb (match s_uses S with [] => true | _ => false end)) (m_nested M).
 (* the regions 1, 3, 4 are about USE statements wherever they stand: the statements of nested
    scopes count (each scope on its own, as the rules are per scoping unit) *)
 Definition with_nested (r : module -> bool) (M : module) : bool :=
@@ -386,7 +372,6 @@ Definition region_rename (g : graph) := existsb (with_nested region_rename_m) g.
 Definition region_private (g : graph) := existsb region_private_m g.
 Definition region_only_empty (g : graph) := existsb (with_nested region_only_empty_m) g.
 Definition region_only_dup (g : graph) := existsb (with_nested region_only_dup_m) g.
-Definition region_uncounted (g : graph) := existsb region_uncounted_m g.
 Definition no_region (g : graph) : bool :=
   negb (region_rename g) && negb (region_private g) && negb (region_only_empty g) && negb (region_only_dup g).
 
